@@ -391,7 +391,7 @@ def streams(r, n, maxdepth, shares=(4, 3, 2)):
     return cases, kinds, g.stats
 
 
-def correspondence(ctx, cases, kinds, ok, want_tokens=True):
+def correspondence(ctx, cases, kinds, ok, want_tokens=True, outcome_only=False):
     """Compare real code and model on every case.  Returns (impl lines, asts)."""
     drv = common.Driver("drv_decl")
     impl, asts, reqs = [], [], []
@@ -416,7 +416,9 @@ def correspondence(ctx, cases, kinds, ok, want_tokens=True):
         if b == "fuel":
             dis.append({"decl": s, "impl": a[:200], "model": "fuel (recursion budget of the model exhausted)"})
             continue
-        if a != b:
+        if outcome_only and a.startswith("ok ") and b.startswith("ok "):
+            pass          # C17 ties outcome class and diagnostic text; structure/renderings are C09's tie
+        elif a != b:
             dis.append({"decl": s, "kind": k, "impl": a[:400], "model": b[:400]})
         if cls == "ok":
             ctx.nontrivial(a.split(" ")[1])
